@@ -58,6 +58,14 @@ type C17Sub struct {
 	Level int    `json:"level" multiref:"lvl"`
 }
 
+// c17lower is an embedded struct whose TYPE is unexported: the embedded
+// field itself is unexported, its exported members are promoted and
+// settable like any other.
+type c17lower struct {
+	Extra string `json:"extra" multiref:"ex"`
+	Cnt   int    `json:"cnt"`
+}
+
 // C17Harness is the harness-defined target: dsn.Info (supplies the
 // hostname/port/username/password keys ParseURI is documented to require)
 // plus string, bool and int members with 1-letter keys "a" and "b".
@@ -71,6 +79,10 @@ type C17Harness struct {
 	Plain string `json:"plain"` // no aliases
 	Sub   C17Sub
 	NoTag string
+	c17lower
+	// tag names with upper-case letters (names are matched as written)
+	Prop1 string `json:"connectProp1" multiref:"CP1"`
+	Fetch int    `json:"fetchSize"`
 }
 
 type c17Field struct {
